@@ -1184,7 +1184,7 @@ class EnhancedBD(BDWithExtIntBase):
         # Since there is no stream reduction, the number of streams of each
         # user will transmit is equal to the number of transmit antennas of
         # that user
-        Ns_all_users = Nt
+        Ns_all_users = Nt.copy()
         MsPk_all_users = single_matrix_to_matrix_of_matrices(Ms_good, None, Nt)
         newH_all_k = single_matrix_to_matrix_of_matrices(newH, Nr, Nt)
         for userindex in range(K):
